@@ -1,3 +1,4 @@
+import PedalProofs.MergeIRLemmas
 import PedalProofs.C01
 /-
 C02 — a submission is marked correct exactly when no shown negative feedback fired.
